@@ -43,6 +43,13 @@ func c05(p *core.Prog, r *core.Report) {
 	r.Rule("C05-R2", "E6 paths", 6, "connection failure notifies every exchange; exchange waits have the error-latch arm")
 	r.Rule("C05-R4", "E6 guards/provenance", 4, "sub-millisecond budgets fail locally; the caller's context bounds connect and call")
 
+	c05Blocking(p, r)
+	c05Failure(p, r)
+	c05Budget(p, r)
+}
+
+// c05Blocking: R1 (shared with C14 as the caller-side wait rule).
+func c05Blocking(p *core.Prog, r *core.Report) {
 	var roots []*ssa.Function
 	for _, n := range outboundRoots {
 		if f := mustFunc(p, r, "", n[0], n[1]); f != nil {
@@ -193,8 +200,6 @@ func c05(p *core.Prog, r *core.Report) {
 		r.Check(ok, "C05-R1", fname(f), "SetDeadline(ctx.Deadline() or default)", p.Pos(f.Pos()), "deadline derives from the context", "handshake deadline is not taken from the context")
 	}
 
-	c05Failure(p, r)
-	c05Budget(p, r)
 }
 
 func lockOpExported(i ssa.Instruction) (types.Object, bool, core.LockMode, bool) {
@@ -279,7 +284,41 @@ func ctxDerivesFromParam(v ssa.Value, f *ssa.Function) bool {
 	return walk(v)
 }
 
+// ioErrorsReachConnectionError: both I/O loops hand a failed read / write to
+// connectionError, which stops the exchanges (waking callers and cancelling
+// handler contexts). Closing the socket alone is not enough: after
+// closeNetwork the read loop deliberately ignores its errors.
+func ioErrorsReachConnectionError(p *core.Prog, r *core.Report, rule string) {
+	f := mustFunc(p, r, "", "Connection", "writeFrames")
+	if f == nil {
+		return
+	}
+	n := 0
+	for _, w := range core.CallsIn(f, "Frame.WriteOut") {
+		n++
+		errV := w.Value()
+		ok, how := false, "no error arm for the write"
+		for _, b := range f.Blocks {
+			if !factsAt(b).nilCmp(func(v ssa.Value) bool { return v == ssa.Value(errV) }, false) || len(b.Preds) != 1 {
+				continue
+			}
+			isCE := func(i ssa.Instruction) bool { _, is := core.IsCall(i, "Connection.connectionError"); return is }
+			res := core.ReachAvoiding(f, b.Instrs[0], core.IsReturn, isCE, nil)
+			ok = !res.Found || isCE(b.Instrs[0])
+			if !ok {
+				how = "a failed frame write leaves the writer loop without connectionError: the exchanges are never stopped (callers keep waiting, handler contexts stay live): " + p.TrailString(res)
+			}
+			break
+		}
+		r.Check(ok, rule, fname(f), "write error -> connectionError before the writer exits", p.Pos(w.Pos()), "every path on the error arm passes connectionError", how)
+	}
+	if n == 0 {
+		r.Errorf("writeFrames: no Frame.WriteOut call found")
+	}
+}
+
 func c05Failure(p *core.Prog, r *core.Report) {
+	ioErrorsReachConnectionError(p, r, "C05-R2")
 	for _, name := range []string{"connectionError", "protocolError"} {
 		f := mustFunc(p, r, "", "Connection", name)
 		if f == nil {
